@@ -238,6 +238,32 @@ fn check_cfg(c: &Cfg, seed: u64, flips: bool, st: &mut Stats, order: u64) {
             st.class("append-round-refused");
         }
     }
+    // other blocks around the AES block, as other producers lay them out: ZIP64 blocks (every subset of sizes / offset, in
+    // front of the AES block; with a local ZIP64 block) and unknown blocks - empty ones included - in front of it
+    {
+        let xb = crate::reference::zipbuild::extra_block;
+        let fronts: Vec<(&str, Vec<u8>)> = vec![("empty-unknown-block", xb(0xcafe, b"")), ("empty-0x617a-block", xb(0x617a, b"")), ("unknown-block", xb(0x7777, b"front")), ("two-blocks", [xb(0xcafe, b""), xb(0x5455, &[1, 0, 0, 0, 0])].concat())];
+        let mut variants: Vec<(String, ESpec)> = vec![];
+        let base = ESpec { name: b"aes".to_vec(), method: c.method, content: content.clone(), enc: Enc::Aes { version: c.version, strength: c.strength, pw: c.pw.clone(), salt_seed: 9 }, ..Default::default() };
+        for z in [1u8, 2, 3, 4, 7] {
+            variants.push((format!("zip64-central-{z}"), ESpec { zip64_central: z, ..base.clone() }));
+            variants.push((format!("zip64-central-{z}+local"), ESpec { zip64_central: z, zip64_local: true, ..base.clone() }));
+        }
+        for (n, f) in &fronts {
+            variants.push((format!("front:{n}"), ESpec { local_extra: f.clone(), central_extra: f.clone(), extra_first: true, ..base.clone() }));
+            variants.push((format!("front:{n}+zip64"), ESpec { local_extra: f.clone(), central_extra: f.clone(), extra_first: true, zip64_central: 3, ..base.clone() }));
+        }
+        for (label, e) in variants {
+            st.evals += 1;
+            let spec = Spec { entries: vec![ESpec { name: b"plain".to_vec(), method: 8, content: b"neighbour".to_vec(), ..Default::default() }, e], ..Default::default() };
+            let b = build(&spec).0;
+            match attempt(&b, 1, Some(&c.pw), 0) {
+                Attempt::Clean(x) if x == content => st.class("blocks-around-the-aes-block:content"),
+                Attempt::Panic(p) => st.viol(format!("panic/{}", panic_site(&p)), format!("{what} ({label}): {p}"), case(json!({"layout": label})), order),
+                other => st.viol(format!("right-password-fails/extra-layout/AE-{}", c.version), format!("{what}, extra area laid out as '{label}': correct password gives {}", match &other { Attempt::Clean(x) => format!("{} other bytes", x.len()), o => format!("{o:?}") }), case(json!({"layout": label})), order),
+            }
+        }
+    }
     // the same entry written in one pass (bit 3, data descriptor with / without signature): right password -> content; the CRC
     // rule is the same (enforced for AE-1, ignored for AE-2) - the central directory carries the CRC either way
     for dd in [crate::reference::zipbuild::Dd::Sig32, crate::reference::zipbuild::Dd::NoSig32] {
